@@ -475,7 +475,7 @@ impl EventBuffer {
                 self.total.classes.decrement(record.class);
                 // the discarded event may be part of a response that is awaiting confirmation
                 if record.state.get() == EventState::Written {
-                    self.written.decrement(&record);
+                    self.written.decrement(record);
                 }
                 self.is_overflown = true;
                 Err(InsertError::Overflow {
